@@ -86,6 +86,10 @@ UNITS += [
          clause='n-d reductions, last axis: regrouped as (product of the leading extents, last extent)'),
     Unit('reduction_nd_reshape_v.uf', 'c12', 'verif_reduction_nd_reshape_v', mode='uf', unwind=10,
          clause='n-d reductions over every other axis: regrouped as (product of extents up to the axis, product of the extents after it)'),
+    Unit('eval_binary_4.bounded', 'c12b', 'verif_eval_binary_4', mode='bp', plain=True, unwind=18, unwind_loops={'.': 14}, timeout=1800, object_bits=12,
+         bounded='2-d operands with 1..3 rows, 1..6 columns, at most 12 elements each (buffers of 16); unsigned elements; 4 lanes; all loops unwound 14 times',
+         waive=[r'arithmetic overflow on (signed to unsigned|unsigned to signed) type conversion'],
+         clause='binary ufunc (same-shape and 2-d broadcast cases): a right-shaped output receives op(lhs, rhs) under broadcasting, a wrong-shaped one is refused untouched; no access outside the buffers'),
     Unit('eval_unary_4.bp', 'c12e', 'verif_eval_unary_4', mode='bp', unwind=34,
          clause='element-wise: packed loop + scalar tail give the scalar result at every element, for every element count (also not a multiple of the lane count), and write nothing else, N=4'),
     Unit('eval_unary_8.bp', 'c12e', 'verif_eval_unary_8', mode='bp', unwind=34,
